@@ -14,6 +14,7 @@ import (
 	"net/http"
 	"net/http/httptest"
 	"os"
+	"runtime"
 	"sort"
 	"strconv"
 	"strings"
@@ -303,7 +304,68 @@ func NewWorldAt(dir string, now int64) (*World, error) {
 func (w *World) Close() {
 	w.srv.Close()
 	if w.Dir != "" {
-		os.RemoveAll(w.Dir)
+		retireDir(w.Dir)
+	}
+}
+
+// Every storage starts a size-limiter goroutine that scans its directory once and PANICS when the
+// directory has vanished under it. On a loaded machine that scan may not have run yet when a short
+// case is over, so a world's directory is not removed at once: it is retired, and removed only
+// after retireLag younger worlds have come and gone (CleanupDirs removes the rest at process exit).
+const retireLag = 48
+
+var (
+	retiredMu sync.Mutex
+	retired   []string
+)
+
+func retireDir(d string) {
+	retiredMu.Lock()
+	retired = append(retired, d)
+	var old string
+	if len(retired) > retireLag {
+		old, retired = retired[0], retired[1:]
+	}
+	retiredMu.Unlock()
+	if old != "" {
+		os.RemoveAll(old)
+	}
+}
+
+// WaitLimitersIdle returns once no size-limiter goroutine is inside (or still before) its start-up
+// scan, as seen in the goroutine dump; bounded.
+func WaitLimitersIdle(timeout time.Duration) {
+	buf := make([]byte, 8<<20)
+	deadline := time.Now().Add(timeout)
+	for time.Now().Before(deadline) {
+		n := runtime.Stack(buf, true)
+		busy := false
+		for _, g := range strings.Split(string(buf[:n]), "\n\n") {
+			if !strings.Contains(g, "runSizeLimiter") {
+				continue
+			}
+			head := strings.SplitN(g, "\n", 2)[0]
+			if strings.Contains(g, "readFiles") || !(strings.Contains(head, "chan receive") || strings.Contains(head, "select")) {
+				busy = true
+				break
+			}
+		}
+		if !busy {
+			return
+		}
+		time.Sleep(time.Millisecond)
+	}
+}
+
+// CleanupDirs removes every retired directory; called when the harness process ends.
+func CleanupDirs() {
+	WaitLimitersIdle(5 * time.Second)
+	retiredMu.Lock()
+	ds := retired
+	retired = nil
+	retiredMu.Unlock()
+	for _, d := range ds {
+		os.RemoveAll(d)
 	}
 }
 
